@@ -145,10 +145,9 @@ def generate(rng, tier):
     narrow8 = [k for k in INSTS if k[4] == 8]
     for key in (rng.sample(narrow8, min(len(narrow8), 6 if quick else 40))):
         yield ops_case(rng, key, lits, cap=rng.choice([130, 200, 255]), nops=rng.choice([150, 270]))
-    if not quick:
-        narrow16 = [k for k in INSTS if k[4] == 16]
-        for key in rng.sample(narrow16, min(len(narrow16), 2)):
-            yield ops_case(rng, key, lits, cap=33500, nops=33600)
+    # (uint16 length types would need > 32768 elements per history: one step of such a
+    #  history costs the model and the oracle a pass over the whole array, so a history is
+    #  quadratic — left out; the uint8 instantiations exercise the same index arithmetic)
 
 
 def ops_case(rng, key, lits, unsort=False, cap=None, nops=None):
